@@ -305,6 +305,8 @@ def cases_for(tier, s):
     pool += ex[::5] if tier == "quick" else ex
     pool += [{"recipe": {"b": "all_types", "cell": "triangle"}}, {"recipe": {"b": "dispatch", "cell": "triangle", "p": {"seed": [s, 18, 1], "nint": 5, "nforms": 2}}},
              {"recipe": {"b": "packing", "cell": "triangle", "p": {"seed": [s, 18, 2]}}}, {"recipe": {"b": "facet_plain", "cell": "prism"}},
+             {"recipe": {"b": "mathfuns", "cell": "triangle"}}, {"recipe": {"b": "mathfuns", "cell": "interval"}}, {"recipe": {"b": "conditionals", "cell": "quadrilateral"}},
+             {"recipe": {"b": "conditionals", "cell": "triangle"}}, {"recipe": {"b": "facet_edge_lengths", "cell": "tetrahedron"}},
              {"recipe": {"b": "bessel", "cell": "triangle", "p": {"kind": "J"}}}, {"recipe": {"b": "bessel", "cell": "interval", "p": {"kind": "Y", "nu": 2}}},
              {"recipe": {"b": "tp_mass_stiff", "cell": "quadrilateral", "tpmesh": True, "p": {"degree": 2}}, "options": {"sum_factorization": True}},
              {"recipe": {"b": "mass", "cell": "triangle", "p": {"degree": 2}}, "options": {"part": "diagonal"}}]
